@@ -21,6 +21,20 @@ def _validate_and_collect(ck, prop, source, trace, scn, work, ev, violations, kn
             violations.append((vp, reason, {'id': sc.get('id')}, [], source))
     return events
 
+def _proto_drift(ck, prop, source, trace, work, ev):
+    """probe traces against the Impl reading of the protocol at hook grain (ProtoSp.tla); deviations are DRIFT only"""
+    if os.path.getsize(trace) > 400_000_000: return
+    rc, out = ck.tlc(os.path.join(ck.SPEC, 'TraceProto.tla'), os.path.join(ck.SPEC, 'TraceProto.cfg'), work, workers=1, env={'TRACE': trace}, timeout=1500, xmx='6g', dfs=True)
+    if 'CONSUMED' not in out:
+        ck.log(out[-1500:]); raise ck.ToolError('TraceProto did not consume %s' % trace)
+    devs = re.findall(r'<<\s*"DEV",\s*(\d+),\s*\{(.*?)\}\s*>>', out, re.S)
+    clauses = sorted(set(re.findall(r'<<"(\w+)", "(\w+)">>', ' '.join(d[1] for d in devs))))
+    pd = ev.setdefault('extra_cov', {}).setdefault('protocol_conformance', {'traces': 0, 'runs_with_deviation': 0, 'clauses': []})
+    pd['traces'] += 1; pd['runs_with_deviation'] += len(devs); pd['clauses'] = sorted(set(map(tuple, pd['clauses'])) | set(clauses))
+    if devs:
+        ck.log('[%s] DRIFT(protocol) %s: %d runs deviate from ProtoSp: %s' % (prop, source, len(devs), clauses[:6]))
+        print('DRIFT: %d run(s) of %s deviate from the Impl reading of the wake-up protocol (ProtoSp.tla): %s' % (len(devs), source, clauses[:6]))
+
 # ------------------------------------------------------------------------------------------------ C04
 def ordered_engine(ck, prop, tier, seed, work, ev, violations, known, knownhits):
     """Ordered.tla: the ordering layer with K-bit wrapping counters, ALL start values, checked exhaustively;
@@ -94,6 +108,7 @@ def refcount_engine(ck, prop, tier, seed, work, ev, violations, known, knownhits
                                {'id': src}, [r['out'][-500:]], src))
             continue
         _validate_and_collect(ck, prop, src, r['trace'], r['scn'], work, ev, violations, known, knownhits, 'TraceRc.tla', 'TraceRc.cfg', runs=r['runs'])
+        _proto_drift(ck, prop, src, r['trace'], work, ev)
         for f in (r['trace'], r['scn']):
             if os.path.exists(f): os.remove(f)
     threads_engine(ck, prop, tier, seed, work, ev, violations, known, knownhits)
@@ -131,5 +146,7 @@ def threads_engine(ck, prop, tier, seed, work, ev, violations, known, knownhits)
             _validate_and_collect(ck, prop, src, trace, scn, work, ev, violations, known, knownhits, 'TraceRc.tla', 'TraceRc.cfg', runs=st['runs'])
         else:
             _validate_and_collect(ck, prop, src, trace, scn, work, ev, violations, known, knownhits, runs=st['runs'])
+        if mode != 'stress':
+            _proto_drift(ck, prop, src, trace, work, ev)
         for f in (trace, scn):
             if os.path.exists(f): os.remove(f)
